@@ -77,7 +77,7 @@ func init() {
 			"parts merged along a random binary tree / left-deep / right-deep order by MergeWith or DecodeAndMergeWith(Encode(part)); oracle = bitwise equality of the full observation (bins, zero weight, count, extremes, quantile grid) with the single sketch, argument snapshot unchanged by each merge, empty merge is a no-op. " +
 			"Non-trivial = >=2 non-empty parts of different store kinds and >=1 zero value; distinct = hash of (mapping, values, partition, tree).",
 		Cases:     core.Scale(60000, 1500000),
-		Mandatory: []string{"oracle.merge_equalities", "oracle.argument_unchanged", "merge.empty_argument", "merge.via_decode", "merge.cross_kind", "part.cleared_before_use", "part.cleared_before_use.other_range", "merge.into_a_copy_of_the_receiver", "oracle.argument_unchanged_later"},
+		Mandatory: []string{"oracle.merge_equalities", "oracle.argument_unchanged", "merge.empty_argument", "merge.via_decode", "merge.cross_kind", "part.cleared_before_use", "part.cleared_before_use.other_range", "merge.into_a_copy_of_the_receiver", "oracle.argument_unchanged_later", "part.copy_of_a_cleared_prototype"},
 		Assumptions: []string{
 			"unit weights: all sums exact, so bitwise equality is legitimate",
 		},
@@ -442,6 +442,32 @@ func runC02(c *core.Ctx) {
 			parts[i].s.I().Clear()
 			c.Count("part.cleared_before_use", 1)
 		}
+	}
+	// pooled prototype: a sketch that was used and cleared, of which several parts are copies (taken while it is
+	// empty; each copy then receives its own share)
+	if k >= 2 && r.P(0.15) {
+		sp := gen.RandPlainStore(r)
+		proto := mon.NewSketch(exact, m.M, sp)
+		for j := 0; j < r.Range(5, 80) && j < 4*len(vs.vals); j++ {
+			// (weighted adds too: the paginated store puts them on pages at once, unit adds stay buffered)
+			if r.Bool() {
+				proto.I().AddWithCount(vs.vals[r.Intn(len(vs.vals))], 2)
+			} else {
+				proto.I().Add(vs.vals[r.Intn(len(vs.vals))])
+			}
+		}
+		if r.Bool() {
+			proto.I().GetValueAtQuantile(0.5)
+		}
+		proto.I().Clear()
+		nCopies := 0
+		for i := range parts {
+			if i == 0 || r.P(0.6) {
+				parts[i] = &part{s: proto.Copy(), spec: sp}
+				nCopies++
+			}
+		}
+		c.Count("part.copy_of_a_cleared_prototype", nCopies)
 	}
 	c.Logf("mapping %s single store %s, %d parts, pattern %s, n=%d", m.Desc, singleSpec, k, pattern, len(vs.vals))
 	hasZero := false
